@@ -7,7 +7,7 @@ Local Open Scope string_scope.
 Theorem C09_build_shape :
   forall O E h a cseg c claims alg aud jalg kb,
     jwt_parts_m (h_jwt h) = Val (a, cseg, c) -> o_claims O cseg = Ok claims -> jhas "cnf" claims = true ->
-    parse_halg (jstr_or_empty (jget "_sd_alg" claims)) = Some alg -> h_kb h = Some (aud, jalg) ->
+    declared_halg claims = Some alg -> h_kb h = Some (aud, jalg) ->
     e_sign E (kb_header jalg) (kb_claims aud (e_nonce E) (e_iat E) (o_hash O alg (presentation_prefix (h_jwt h) (selected h)))) = Val kb ->
     holder_build O E h = Val (presentation_prefix (h_jwt h) (selected h) ++ kb).
 Proof. exact build_bound_shape. Qed.
@@ -34,7 +34,7 @@ Theorem C09_kb_commits_to_exactly_this_presentation :
   Forall (fun x => contains tilde x = false) (jwt' :: ds') -> contains tilde kb = false ->
   Forall (fun x => contains tilde x = false) (jwt :: ds) ->
   (forall h' kc, verify_kb O kb (jget "cnf" claims) = Val (h', kc) -> jget "sd_hash" kc = JStr (o_hash O alg0 (serialise jwt ds ""))) ->
-  (forall a alg, jget "_sd_alg" claims = JStr a -> parse_halg a = Some alg -> alg = alg0) ->
+  (forall alg, declared_halg claims = Some alg -> alg = alg0) ->
   jwt' = jwt /\ ds' = ds.
 Proof. exact kb_commits. Qed.
 Print Assumptions C09_kb_commits_to_exactly_this_presentation.
